@@ -2,7 +2,7 @@
 TLC emits for spec/Glob.tla.  Nothing here decides a verdict: the expectation of an abstract case
 carries over to its inflated concretization by two stated arguments.
 
-(1) BLOCKS (checked by TLC itself for L = 2, 3: invariant BlockInvariance of Glob.tla).  Every name
+(1) BLOCKS (checked by TLC itself for L = 3: invariant BlockInvariance of Glob.tla).  Every name
     symbol c becomes the block  marker(c) + P  with one pad string P of length L-1 shared by all
     blocks; a literal or escaped pattern symbol becomes the same block (escaped where needed), '?'
     becomes '?'*L and '*' stays (a trailing lone '*' may become a run of '*': a run of '*' is one
